@@ -305,6 +305,36 @@ def run(prop, tier):
                                       {"kind": "lint-balanced", "mcv": mcv})
                 ctx.part("lint-" + model, traces=len(tasks))
 
+                # ---- the same lint verdicts with the other views switched on as well (-b needs the breakdown attribute)
+                if model in ("nosv", "nanos6"):
+                    systemb = emusrv.System(SPEC, require=req, extra_meta={"*": {"nosv": {"can_breakdown": True}, "nanos6": {"can_breakdown": True}}})
+                    tdb = systemb.write(scratch.sub("traceb-" + model))
+                    for fl in (["-l", "-b"], ["-b", "-l", "-a"]):
+                        poolb = ServerPool(exe, tdb, fl)
+                        try:
+                            tasks, meta = [], []
+                            for mcv, g in sorted(ref.enter.items()):
+                                tasks.append(([X, Ev(0, mcv), Ev(0, "OHe")], [Fin(1)]))
+                                meta.append((mcv, g, True))
+                                tasks.append(([X, Ev(0, mcv), Ev(0, g["leave"]), Ev(0, "OHe")], [Fin(1)]))
+                                meta.append((mcv, g, False))
+                            for (mcv, g, open_), (hres, pres) in zip(meta, poolb.expand_many(tasks)):
+                                ctx.add(evaluations=len(pres), transitions=len(pres))
+                                if not hres.get("ok"):
+                                    continue
+                                r = pres[0]
+                                if open_ and r.ok and g["type"] in LINT_TYPES:
+                                    ctx.violation("ovniemu %s accepted a trace ending inside %s (%s)" % (" ".join(fl), mcv, g["label"]),
+                                                  {"engine": "E3", "flags": fl, "history": [X.line(), Ev(0, mcv).line(), "E 0 1 OHe -"], "probe": "F 1"},
+                                                  {"kind": "lint-open-region", "mcv": mcv})
+                                if not open_ and not r.ok:
+                                    ctx.violation("ovniemu %s refused a balanced trace %s..%s: %s" % (" ".join(fl), mcv, g["leave"], r.msg),
+                                                  {"engine": "E3", "flags": fl, "history": [X.line(), Ev(0, mcv).line(), Ev(0, g["leave"]).line(), "E 0 1 OHe -"], "probe": "F 1"},
+                                                  {"kind": "lint-balanced", "mcv": mcv})
+                            ctx.part("lint-%s %s" % (model, " ".join(fl)), traces=len(tasks))
+                        finally:
+                            poolb.close()
+
                 # ---- lint with two threads (two processes): the open region belongs to either thread, and either thread emits the last event
                 system2 = emusrv.System(SPEC2, require=req)
                 td2 = system2.write(scratch.sub("trace2-" + model))
